@@ -9,7 +9,7 @@ import petl
 from petl.util.materialise import cache as pcache
 
 from engine.ref import row_eq
-from engine.shim import check
+from engine.shim import assume, check
 from engine.stubs import pickle_stub, private_tempdir, default_tempdir, rng_stub, clock_stub
 
 from .catalogue import ALL, ALL_BY_NAME, HDR
@@ -57,9 +57,15 @@ def _run(sym, mk, L, nits, what, kf=None):
     done = [False] * nits
     trace = []
     last = None            # slot whose iterator touched the view's shared state most recently
+    fresh_it = [False] * nits      # slot holds an iterator that was created and never advanced
     for step in range(L):
         act = sym.choice('s%d' % step, 2 * nits - 1)       # next_0..next_{n-1}, new_1..new_{n-1}
         i, kind = (act, 0) if act < nits else (act - nits + 1, 1)
+        # schedules that differ only by no-ops are explored once (pruned, not passed)
+        if kind == 0:
+            assume(not done[i])
+        else:
+            assume(not fresh_it[i])
         if kf is not None and kind == 0 and its[i] is not None and len(got[i]) > 0 and last is not None and last != i:
             # known finding: region = an iterator that is mid-way is advanced after another one acted
             sym.known(kf, True)
@@ -70,13 +76,13 @@ def _run(sym, mk, L, nits, what, kf=None):
             its[i] = iter(view)
             got[i] = []
             done[i] = False
+            fresh_it[i] = True
             trace.append('new%d' % i)
             continue
         trace.append('next%d' % i)
+        fresh_it[i] = False
         if its[i] is None:
             its[i] = iter(view)
-        if done[i]:
-            continue
         try:
             r = next(its[i])
         except StopIteration:
